@@ -419,7 +419,10 @@ let run_tty u line =
       | v -> (match String.split_on_char ',' v with [l; r] -> Some (parse_str l, parse_str r) | _ -> None) in
     let hist = strs (get "hist" "") in
     let reads = nat_of_int (int_of_string (get "reads" "1")) in
-    let chunks = List.map (fun c -> decode_chunk (List.map int_of_n (parse_bytes c))) (words rest) in
+    let chunks = List.map (fun c ->
+        if String.length c > 2 && String.sub c 0 2 = "P:" then
+          [Print (parse_str (String.sub c 2 (String.length c - 2)))]   (* a message printed while the read waits here *)
+        else decode_chunk (List.map int_of_n (parse_bytes c))) (words rest) in
     let rs = run_reads u cfg prompt initial hist (kr_new (nat_of_int 60)) { in_cur = []; in_rest = chunks } reads in
     String.concat " ## " (List.map (fun r ->
         Printf.sprintf "O=%s K=%s W=%s" (fmt_outcome r.rr_outcome)
